@@ -257,4 +257,305 @@ theorem addVarStr_unicode_eq (s : List Nat) (fill maxLen : Nat) (chars : Bool) (
   simp only [Except.ok.injEq, Msg.mk.injEq, true_and]
   omega
 
+/-! ### reading the code units back: `N2kUCS2ToUTF8` -/
+
+/-- the longest prefix whose UTF-8 form fits `room` bytes (the conversion stops at the first character
+that does not fit) -/
+def fitPrefix : Nat → List Chr → List Chr
+  | _, [] => []
+  | room, c :: t => if c.back.length ≤ room then c :: fitPrefix (room - c.back.length) t else []
+
+theorem unit_lt (c : Chr) (h : c.WF) : c.unit < 65536 := by
+  cases c <;> simp only [Chr.WF] at h <;> simp only [Chr.unit] <;> omega
+
+theorem c2uLoop_exit (m : Msg) (base strLen n bufLen nul f i ulen : Nat) (dst : D) (hf : 1 ≤ f)
+    (hc : ¬ (i + 1 < strLen ∧ ulen < bufLen)) :
+    c2uLoop m base strLen n bufLen nul f i ulen dst = .ok (dst, ulen) := by
+  obtain ⟨f, rfl⟩ : ∃ f', f = f' + 1 := ⟨f - 1, by omega⟩
+  simp [c2uLoop, if_neg hc]
+
+theorem upd_pair (d : D) (i b0 b1 : Nat) : upd (upd d (i + 1) b1) i b0 = blit d i [b0, b1] := by
+  funext j
+  simp only [upd, blit, List.length_cons, List.length_nil]
+  by_cases h0 : j = i
+  · subst h0; simp
+  · by_cases h1 : j = i + 1
+    · subst h1; simp
+    · have : ¬ (i ≤ j ∧ j < i + (0 + 1 + 1)) := by omega
+      simp [h0, h1, this]
+
+theorem upd_triple (d : D) (i b0 b1 b2 : Nat) :
+    upd (upd (upd d (i + 2) b2) (i + 1) b1) i b0 = blit d i [b0, b1, b2] := by
+  funext j
+  simp only [upd, blit, List.length_cons, List.length_nil]
+  by_cases h0 : j = i
+  · subst h0; simp
+  · by_cases h1 : j = i + 1
+    · subst h1; simp
+    · by_cases h2 : j = i + 2
+      · subst h2; simp
+      · have : ¬ (i ≤ j ∧ j < i + (0 + 1 + 1 + 1)) := by omega
+        simp [h0, h1, h2, this]
+
+theorem fit_cons (c : Chr) (t : List Chr) (room : Nat) (h : c.back.length ≤ room) :
+    (fitPrefix room (c :: t)).flatMap Chr.back
+      = c.back ++ (fitPrefix (room - c.back.length) t).flatMap Chr.back := by
+  simp [fitPrefix, if_pos h]
+
+theorem nofit_cons (c : Chr) (t : List Chr) (room : Nat) (h : ¬ c.back.length ≤ room) :
+    (fitPrefix room (c :: t)).flatMap Chr.back = [] := by
+  simp [fitPrefix, if_neg h]
+
+theorem close_step (dst : D) (ulen : Nat) (B X : List Nat) (dst2 : D) (h : dst2 = blit dst ulen B) :
+    (Except.ok (blit dst2 (ulen + B.length) X, ulen + B.length + X.length) : M (D × Nat))
+      = .ok (blit dst ulen (B ++ X), ulen + (B ++ X).length) := by
+  subst h
+  rw [blit_append, List.length_append, Nat.add_assoc]
+
+theorem c2uLoop_chars (m : Msg) (base strLen n bufLen : Nat) (hb : bufLen < n) (hr : base + strLen ≤ m.len)
+    (cs : List Chr) (hwf : ∀ c ∈ cs, c.WF) (f i ulen : Nat) (dst : D)
+    (hi : strLen = i + 2 * cs.length)
+    (hdata : slice m.data (base + i) (2 * cs.length) = cs.flatMap unitBytes)
+    (hu : ulen ≤ bufLen) (hf : 1 ≤ f) (hfuel : i + 1 < strLen → strLen + 3 ≤ i + 2 * f) :
+    c2uLoop m base strLen n bufLen 0xff f i ulen dst
+      = .ok (blit dst ulen ((fitPrefix (bufLen - ulen) cs).flatMap Chr.back),
+             ulen + ((fitPrefix (bufLen - ulen) cs).flatMap Chr.back).length) := by
+  induction cs generalizing f i ulen dst with
+  | nil =>
+    rw [c2uLoop_exit _ _ _ _ _ _ _ _ _ _ hf (by simp at hi; omega)]
+    simp [fitPrefix]
+  | cons c t ih =>
+    have hcw := hwf c (by simp)
+    have hul := unit_lt c hcw
+    by_cases hroom : ulen < bufLen
+    · obtain ⟨f, rfl⟩ : ∃ f', f = f' + 1 := ⟨f - 1, by omega⟩
+      simp only [List.length_cons] at hi
+      have hc : i + 1 < strLen ∧ ulen < bufLen := ⟨by omega, hroom⟩
+      have hf2 : 1 ≤ f := by have := hfuel hc.1; omega
+      -- the two payload bytes of this character and the rest
+      have e2 : 2 * (c :: t).length = 2 * t.length + 1 + 1 := by simp only [List.length_cons]; omega
+      rw [e2] at hdata
+      simp only [slice, List.flatMap_cons, unitBytes, List.cons_append, List.nil_append, List.cons.injEq] at hdata
+      obtain ⟨hlo, hhi, hrest⟩ := hdata
+      have r1 : rd m (base + i) = .ok (c.unit % 256) := by simp [rd, hlo]; omega
+      have r2 : rd m (base + i + 1) = .ok ((c.unit >>> 8) % 256) := by simp [rd, hhi]; omega
+      have hrest' : slice m.data (base + (i + 2)) (2 * t.length) = t.flatMap unitBytes := by
+        rw [← hrest]; congr 1
+      have IH := fun (ulen' : Nat) (dst' : D) (hu' : ulen' ≤ bufLen) =>
+        ih (fun x hx => hwf x (by simp [hx])) f (i + 2) ulen' dst' (by omega) hrest' hu' hf2
+          (by intro h; have := hfuel hc.1; omega)
+      have hexit : ∀ dst', c2uLoop m base strLen n bufLen 0xff f (strLen + 2) ulen dst' = .ok (dst', ulen) :=
+        fun dst' => c2uLoop_exit _ _ _ _ _ _ _ _ _ _ hf2 (by omega)
+      have w0 : ulen < n := by omega
+      generalize hU : c.unit = u at hul r1 r2
+      simp only [c2uLoop, if_pos hc, r1, r2, bind_ok, recomb u hul]
+      cases c with
+      | a b =>
+        simp only [Chr.WF] at hcw
+        have h1 : b < 0x80 := hcw.2
+        have hne : b ≠ 0xff := by omega
+        simp only [Chr.unit] at hU; subst hU
+        simp only [if_pos h1, wd_ok w0, bind_ok, if_pos hne]
+        have hfit : (Chr.a b).back.length ≤ bufLen - ulen := by show 1 ≤ bufLen - ulen; omega
+        rw [show ulen + 1 = ulen + (Chr.a b).back.length from rfl,
+          IH (ulen + (Chr.a b).back.length) _ (by show ulen + 1 ≤ bufLen; omega),
+          fit_cons _ _ _ hfit, Nat.sub_sub]
+        exact close_step dst ulen _ _ _ (upd_eq_blit dst ulen b)
+      | four x y z w =>
+        have h1 : (0x3F : Nat) < 0x80 := by omega
+        have hne : (0x3F : Nat) ≠ 0xff := by omega
+        simp only [Chr.unit] at hU; subst hU
+        simp only [if_pos h1, wd_ok w0, bind_ok, if_pos hne]
+        have hfit : (Chr.four x y z w).back.length ≤ bufLen - ulen := by show 1 ≤ bufLen - ulen; omega
+        rw [show ulen + 1 = ulen + (Chr.four x y z w).back.length from rfl,
+          IH (ulen + (Chr.four x y z w).back.length) _ (by show ulen + 1 ≤ bufLen; omega),
+          fit_cons _ _ _ hfit, Nat.sub_sub]
+        exact close_step dst ulen _ _ _ (upd_eq_blit dst ulen 0x3F)
+      | two x y =>
+        simp only [Chr.WF] at hcw
+        have h1 : ¬ (x * 64 + y < 0x80) := by omega
+        have h2 : x * 64 + y < 0x800 := by omega
+        simp only [Chr.unit] at hU; subst hU
+        simp only [if_neg h1, if_pos h2]
+        have hb1 : 0x80 ||| ((x * 64 + y) &&& 0x3F) = 0x80 + y := by
+          rw [and63, show (x * 64 + y) % 64 = y by omega, or80 y hcw.2.2]
+        have hb0 : 0xC0 ||| ((x * 64 + y) >>> 6) = 0xC0 + x := by
+          rw [shr6, show (x * 64 + y) / 64 = x by omega, orC0 x hcw.2.1]
+        by_cases hr2 : ulen + 1 < bufLen
+        · have w1 : ulen + 1 < n := by omega
+          simp only [if_pos hr2, wd_ok w0, wd_ok w1, bind_ok, hb1, hb0]
+          have hfit : (Chr.two x y).back.length ≤ bufLen - ulen := by show 2 ≤ bufLen - ulen; omega
+          rw [show ulen + 2 = ulen + (Chr.two x y).back.length from rfl,
+            IH (ulen + (Chr.two x y).back.length) _ (by show ulen + 2 ≤ bufLen; omega),
+            fit_cons _ _ _ hfit, Nat.sub_sub]
+          exact close_step dst ulen _ _ _ (upd_pair dst ulen _ _)
+        · have hfit : ¬ ((Chr.two x y).back.length ≤ bufLen - ulen) := by show ¬ (2 ≤ bufLen - ulen); omega
+          simp only [if_neg hr2, hexit, nofit_cons _ _ _ hfit, blit_nil, List.length_nil, Nat.add_zero]
+      | three x y z =>
+        simp only [Chr.WF] at hcw
+        have h1 : ¬ (x * 4096 + y * 64 + z < 0x80) := by omega
+        have h2 : ¬ (x * 4096 + y * 64 + z < 0x800) := by omega
+        simp only [Chr.unit] at hU; subst hU
+        simp only [if_neg h1, if_neg h2]
+        have hb2 : 0x80 ||| ((x * 4096 + y * 64 + z) &&& 0x3F) = 0x80 + z := by
+          rw [and63, show (x * 4096 + y * 64 + z) % 64 = z by omega, or80 z hcw.2.2.1]
+        have hb1 : 0x80 ||| (((x * 4096 + y * 64 + z) >>> 6) &&& 0x3F) = 0x80 + y := by
+          rw [shr6, and63, show (x * 4096 + y * 64 + z) / 64 % 64 = y by omega, or80 y hcw.2.1]
+        have hb0 : 0xE0 ||| (((x * 4096 + y * 64 + z) >>> 6) >>> 6) = 0xE0 + x := by
+          rw [shr6, shr6, show (x * 4096 + y * 64 + z) / 64 / 64 = x by omega, orE0 x hcw.1]
+        by_cases hr3 : ulen + 2 < bufLen
+        · have w1 : ulen + 1 < n := by omega
+          have w2 : ulen + 2 < n := by omega
+          simp only [if_pos hr3, wd_ok w0, wd_ok w1, wd_ok w2, bind_ok, hb2, hb1, hb0]
+          have hfit : (Chr.three x y z).back.length ≤ bufLen - ulen := by show 3 ≤ bufLen - ulen; omega
+          rw [show ulen + 3 = ulen + (Chr.three x y z).back.length from rfl,
+            IH (ulen + (Chr.three x y z).back.length) _ (by show ulen + 3 ≤ bufLen; omega),
+            fit_cons _ _ _ hfit, Nat.sub_sub]
+          exact close_step dst ulen _ _ _ (upd_triple dst ulen _ _ _)
+        · have hfit : ¬ ((Chr.three x y z).back.length ≤ bufLen - ulen) := by show ¬ (3 ≤ bufLen - ulen); omega
+          simp only [if_neg hr3, hexit, nofit_cons _ _ _ hfit, blit_nil, List.length_nil, Nat.add_zero]
+    · have hback : 1 ≤ c.back.length := by cases c <;> simp [Chr.back, Chr.bytes]
+      have hfit : ¬ (c.back.length ≤ bufLen - ulen) := by omega
+      rw [c2uLoop_exit _ _ _ _ _ _ _ _ _ _ hf (fun h => hroom h.2), nofit_cons _ _ _ hfit]
+      simp
+
+/-! ### the round trip -/
+
+theorem unitBytes_flat_length (cs : List Chr) : (cs.flatMap unitBytes).length = 2 * cs.length := by
+  induction cs with
+  | nil => rfl
+  | cons c t ih => simp [List.flatMap_cons, unitBytes, ih]; omega
+
+theorem fit_length (room : Nat) (cs : List Chr) : ((fitPrefix room cs).flatMap Chr.back).length ≤ room := by
+  induction cs generalizing room with
+  | nil => simp [fitPrefix]
+  | cons c t ih =>
+    by_cases h : c.back.length ≤ room
+    · rw [fit_cons c t room h, List.length_append]
+      have := ih (room - c.back.length); omega
+    · rw [nofit_cons c t room h]; simp
+
+theorem fit_mem (room : Nat) (cs : List Chr) : ∀ c ∈ fitPrefix room cs, c ∈ cs := by
+  induction cs generalizing room with
+  | nil => simp [fitPrefix]
+  | cons c t ih =>
+    intro x hx
+    simp only [fitPrefix] at hx
+    split at hx
+    · simp only [List.mem_cons] at hx
+      rcases hx with rfl | hx
+      · simp
+      · exact List.mem_cons_of_mem _ (ih _ x hx)
+    · simp at hx
+
+theorem back_ne_zero (c : Chr) (h : c.WF) : ∀ b ∈ c.back, b ≠ 0 := by
+  cases c <;> simp only [Chr.WF] at h <;> simp [Chr.back, Chr.bytes] <;> omega
+
+theorem takeWhile_stop (A R : List Nat) (hA : ∀ b ∈ A, b ≠ 0) : (A ++ 0 :: R).takeWhile (· ≠ 0) = A := by
+  induction A with
+  | nil => simp
+  | cons b t ih =>
+    have hb := hA b (by simp)
+    simp only [List.cons_append, List.takeWhile_cons, ne_eq, hb, not_false_eq_true, decide_true, if_true]
+    rw [ih (fun x hx => hA x (by simp [hx]))]
+
+/-- a destination holding `out`, a NUL, and anything behind it -/
+theorem textOf_terminated (n : Nat) (dst : D) (out : List Nat) (hlen : out.length < n) (hnz : ∀ b ∈ out, b ≠ 0) :
+    textOf n (upd (blit dst 0 out) out.length 0) = out := by
+  have e1 : upd (blit dst 0 out) out.length 0 = blit dst 0 (out ++ [0]) := by
+    rw [upd_eq_blit]
+    have := blit_append dst 0 out [0]
+    simpa using this
+  obtain ⟨r, hr⟩ : ∃ r, n = (out ++ [0]).length + r := ⟨n - (out.length + 1), by simp; omega⟩
+  rw [e1, textOf, hr, List.range_add, List.map_append, map_range_blit, List.append_assoc]
+  exact takeWhile_stop out _ hnz
+
+theorem utf8_head_ne (cs : List Chr) (hwf : ∀ c ∈ cs, c.WF) (hne : cs ≠ []) : (utf8 cs).headD 0 ≠ 0 := by
+  cases cs with
+  | nil => exact absurd rfl hne
+  | cons c t =>
+    obtain ⟨b, tl, hb, hb0⟩ := Chr.bytes_head_ne c (hwf c (by simp))
+    rw [utf8_cons, hb]; simpa using hb0
+
+/-- **variable-length field, unicode text**: well-formed UTF-8 with at least one multi-byte character goes
+through UCS-2 and comes back unchanged, except that 4-byte sequences (beyond the BMP) come back as '?';
+cut to whole characters by the maximum / the free payload (`k` characters) and by the destination. -/
+theorem rt_var_unicode (cs : List Chr) (hwf : ∀ c ∈ cs, c.WF) (hmb : ∃ c ∈ cs, c.isAscii = false)
+    (fill maxLen n : Nat) (chars : Bool) (d dst : D) (hfree : 2 < MaxDataLen - fill) (hn : 0 < n) :
+    ∃ m' r sz idx' dst', addVarStr ⟨d, fill⟩ (.at (utf8 cs)) maxLen true chars = .ok m' ∧
+      m'.data (fill + 1) = 0 ∧
+      getVarStr m' n dst 0xff fill = .ok (r, sz, idx', dst') ∧
+      textOf n dst' = (fitPrefix (n - 1) (cs.take (min cs.length
+        ((min (MaxDataLen - fill - 2) (if chars then maxLen * 2 else maxLen)) / 2)))).flatMap Chr.back := by
+  have hM : MaxDataLen = 223 := rfl
+  generalize hMx : (if chars then maxLen * 2 else maxLen) = M
+  have hBmin : min (MaxDataLen - fill - 2) M = (if MaxDataLen - fill - 2 > M then M else MaxDataLen - fill - 2) := by
+    split <;> omega
+  generalize hB : (if MaxDataLen - fill - 2 > M then M else MaxDataLen - fill - 2) = B at hBmin
+  rw [hBmin]
+  have hBle : B ≤ MaxDataLen - fill - 2 := by subst hB; split <;> omega
+  generalize hk : min cs.length (B / 2) = k
+  generalize hbody : (cs.take k).flatMap unitBytes = body
+  have htk : (cs.take k).length = k := by rw [List.length_take]; omega
+  have hbl : body.length = 2 * k := by subst hbody; rw [unitBytes_flat_length, htk]
+  have hne : cs ≠ [] := by obtain ⟨c, hc, _⟩ := hmb; exact List.ne_nil_of_mem hc
+  -- the add
+  have hconv : ∀ d', utf8ToUCS2 (.at (utf8 cs)) d' (fill + 1 + 1) B = .ok (blit d' (fill + 1 + 1) body, body.length) := by
+    intro d'
+    have := u2uLoop_chars cs hwf (Ptr.at (utf8 cs)).fuel (fill + 1 + 1) 0 B d' (by simp [Ptr.fuel]) (by omega)
+    simp only [Nat.sub_zero, hk, hbody, Nat.zero_add] at this
+    rw [utf8ToUCS2, this, hbl]
+  have hadd := addVarStr_unicode_eq (utf8 cs) fill maxLen chars body d hfree (utf8_head_ne cs hwf hne)
+    (requireUnicode_chars cs hwf hmb) (by rw [hMx, hB]; exact hconv _) (by omega)
+  generalize hL : (body.length + 2) :: 0 :: body = L at hadd
+  have hLl : L.length = body.length + 2 := by subst hL; simp
+  have g0 : blit d fill L fill = body.length + 2 := by
+    have := blit_in d fill L 0 (by omega); subst hL; simpa using this
+  have g1 : blit d fill L (fill + 1) = 0 := by
+    have := blit_in d fill L 1 (by omega); subst hL; simpa using this
+  suffices hget : ∃ r sz idx' dst',
+      getVarStr ⟨blit d fill L, fill + (body.length + 2)⟩ n dst 0xff fill = .ok (r, sz, idx', dst') ∧
+      textOf n dst' = (fitPrefix (n - 1) (cs.take k)).flatMap Chr.back by
+    obtain ⟨r, sz, idx', dst', h1, h2⟩ := hget
+    exact ⟨_, r, sz, idx', dst', hadd, g1, h1, h2⟩
+  -- the get
+  have b1 : getByte ⟨blit d fill L, fill + (body.length + 2)⟩ fill = .ok (body.length + 2, fill + 1) := by
+    rw [getByte_ok _ _ (by show fill < fill + (body.length + 2); omega)]; simp only [g0]
+  have b2 : getByte ⟨blit d fill L, fill + (body.length + 2)⟩ (fill + 1) = .ok (0, fill + 1 + 1) := by
+    rw [getByte_ok _ _ (by show fill + 1 < fill + (body.length + 2); omega)]; simp only [g1]
+  simp only [getVarStr, b1, b2, bind_ok]
+  by_cases h0 : k = 0
+  · have hc : body.length + 2 ≤ 2 ∨ body.length + 2 = 0xff ∨ 0 > 1 ∨ fill + 1 + 1 ≥ fill + (body.length + 2) :=
+      Or.inl (by omega)
+    have hc2 : body.length + 2 = 2 ∧ 0 ≤ 1 := ⟨by omega, by omega⟩
+    simp only [if_pos hc, if_pos hn, wd_ok hn, bind_ok, if_pos hc2, pure_eq]
+    refine ⟨_, _, _, _, rfl, ?_⟩
+    rw [textOf_zero n dst hn, h0]; simp [fitPrefix]
+  · have hc : ¬ (body.length + 2 ≤ 2 ∨ body.length + 2 = 0xff ∨ 0 > 1 ∨ fill + 1 + 1 ≥ fill + (body.length + 2)) := by
+      omega
+    have hl : (if body.length + 2 - 2 + (fill + 1 + 1) > fill + (body.length + 2)
+        then fill + (body.length + 2) - (fill + 1 + 1) else body.length + 2 - 2) = 2 * k := by
+      split <;> omega
+    have ht : ¬ ((0 : Nat) = 0x01) := by omega
+    have hn0 : ¬ n = 0 := by omega
+    simp only [if_neg hc, hl, if_pos hn, if_neg ht, ucs2ToUTF8, if_neg hn0]
+    have hsl : slice (blit d fill L) (fill + 1 + 1 + 0) (2 * (cs.take k).length) = (cs.take k).flatMap unitBytes := by
+      have := slice_blit d fill L 2 body.length (by omega)
+      rw [htk, ← hbl, show fill + 1 + 1 + 0 = fill + 2 from rfl, this, hbody]; subst hL; simp
+    have hloop := c2uLoop_chars ⟨blit d fill L, fill + (body.length + 2)⟩ (fill + 1 + 1) (2 * k) n (n - 1)
+      (by omega) (by show fill + 1 + 1 + 2 * k ≤ fill + (body.length + 2); omega)
+      (cs.take k) (fun c hc => hwf c (List.mem_of_mem_take hc)) (2 * k + 1) 0 0 dst
+      (by rw [htk]; omega) hsl (by omega) (by omega) (by omega)
+    simp only [Nat.sub_zero, Nat.zero_add] at hloop
+    generalize hout : (fitPrefix (n - 1) (cs.take k)).flatMap Chr.back = out at hloop
+    have hol : out.length ≤ n - 1 := by subst hout; exact fit_length _ _
+    have honz : ∀ b ∈ out, b ≠ 0 := by
+      subst hout
+      intro b hb
+      obtain ⟨c, hc, hbc⟩ := List.mem_flatMap.mp hb
+      exact back_ne_zero c (hwf c (List.mem_of_mem_take (fit_mem _ _ c hc))) b hbc
+    rw [hloop]
+    simp only [bind_ok, wd_ok (by omega : out.length < n), pure_eq]
+    exact ⟨_, _, _, _, rfl, textOf_terminated n dst out (by omega) honz⟩
+
 end N2k.Text
